@@ -14,11 +14,34 @@ Cross-build comparison (the property itself): lines are keyed by their left-hand
 evaluated the same left-hand side the right-hand sides must be identical words.  For ops the three builds see the
 same operand tuples (lane batching only repeats some), for ntt the three streams are line-by-line the same inputs.
 """
-import os, subprocess, time
+import json, os, subprocess, time
 import checklib as cl
 from props import COMMON_TB
 
 VEC_OPS = {"vaddmod": "k_addmod", "vsubmod": "k_submod", "vmulshoup4": "k_mulshoup", "vmuladdshoup5": "k_muladdshoup"}
+
+
+def translators(repo):
+    """source-level tie of the vector kernels: Generated/SimdAst.lean is re-translated from clang's AST of sse.hpp /
+    avx2.hpp on every run (tools/gen_simd_ast.py); the equalities with the hand-written kernel models
+    (Proofs/SimdAstEq.lean) and the transported C05 lane theorems (Properties/C05Ast.lean) are then re-checked by
+    `lake build`.  C05Ast also states the add/sub kernels against the scalar functors re-translated by gen_ops_ast.py."""
+    out = {}
+    for name, keep_out in (("gen_ops_ast", ("node_kinds",)), ("gen_simd_ast", ("node_kinds",))):
+        r = cl.run(["python3", os.path.join(cl.HERE, name + ".py"), "--repo", repo])
+        info = {"ok": r.returncode == 0}
+        if r.returncode != 0:
+            info["err"] = (r.stdout + r.stderr)[-2000:]
+        else:
+            try:
+                info.update(json.loads(r.stdout.strip().splitlines()[-1]))
+                for k in keep_out:
+                    info.pop(k, None)
+            except Exception as e:
+                info["ok"] = False
+                info["err"] = "unparsable summary: %s" % e
+        out[name] = info
+    return out
 
 
 def _run(exe, env=None, timeout=3000):
@@ -179,11 +202,12 @@ def search(ctx, res, problems):
 
 
 PROP = {
-    "streams": streams, "search": search,
+    "streams": streams, "search": search, "translators": translators,
     "rule": "simd: every modelled intrinsic executed on the CPU on whole-register boundary classes (0,1,2, 0x7f…/0x80…/0xff…, 0xffff/0x10000 for packus, values around p, 2p and the signed-compare offsets p±2^(w-1)) plus random and mixed lanes; every kernel called directly with the conditional-subtraction boundary (sum=p-1,p,p+1; 2p-1,2p for butterflies) rotated through all lanes, Shoup operands with x·y' within ±2 of a multiple of 2^w, lazy and arbitrary words; ntt_loop<sse|avx2>::run on arbitrary words/tables for n=8..256; poly ==/!= with exactly one differing element at every lane position. ops/ntt: the C03 and C01/C02 streams in three builds. Each line is compared with the model of ITS build (kernel model for k_*/nttfwd_sse/nttfwd_avx2, scalar model otherwise) and, as spec, with the SCALAR model's words — which is what the lane/loop theorems state — and with the exact modular result where the inputs are canonical. In addition the three builds are compared with each other directly: identical left-hand side => identical right-hand side (ops: the three builds evaluate the same operand tuples, lane batching only repeats some of them; ntt: built with the same MIN16/MIN32 the three streams have identical inputs line by line; all lines are compared, only a subset goes through the Lean driver in the quick tier). distinct = distinct left-hand sides fed to the driver; none is trivial.",
     "trusted_base": COMMON_TB + [
         "x86 SSE4.2/AVX2 instructions behave on other CPUs as on the CPU the check runs on (each modelled intrinsic is executed and compared with its Lean model on every run)",
         "alignment of vector loads/stores and the compiler's instruction selection are not modelled (sanitizer builds of the simd/ops harnesses would trap on misaligned or out-of-bounds access)",
+        "source-level tie of the vector kernels: clang++-14's typed AST (-ast-dump=json) of sse.hpp/avx2.hpp in the two configurations (-DNTT_SSE -msse4.2, -DNTT_AVX2 -mavx2), tools/gen_simd_ast.py's traversal and its intrinsic-NAME -> model table (`_mm[256]_…` header functions by name, `__builtin_ia32_…` builtins of the macro intrinsics by name + constant immediates; casts between vector types of equal size read as bit-preserving), the scalar node semantics of Model/CSem.lean + Model/SimdView.lean for the `set1` arguments, and the intrinsic models of Model/Simd.lean (each executed on the CPU and compared on every run by harness/simd.cpp); memory (loads before stores, distinct pointers) of ntt_loop_body::operator() is abstracted to registers in / registers out",
         "mode reconciliation of mixed expression trees (which sub-expression is evaluated by which backend) is C07's concern; here every functor and the transform are compared per backend",
     ],
     "assumptions": ["16/32-bit limbs: p < 2^w for add/sub, 2p ≤ 2^w for butterflies/transforms (4p ≤ 2^w on every table row); Shoup kernels: lane hypotheses Shoup32Hyp/Shoup16Hyp/Muladd16Hyp, proved to hold for y<p, y'=compute_shoup(y), rop<p and any word x",
